@@ -24,6 +24,24 @@ CLAIMED = {
     ),
 }
 
+CLAIMED["C06"] = dict(
+    engine="tlc+window",
+    design_ref="4.6",
+    technique="TLA+ model of the window rules at the real constants, TLC one-step (inductive) exploration from every "
+              "state of the range; each exported transition executed on a real SrtlaConnection; recorded timed "
+              "histories validated by TLC",
+    text="Every C06 clause is a single-step statement about the window, so TLC takes every action of Window.tla from "
+         "every state of the real range (quick: boundary windows x all age boundaries; thorough: all 59001 windows x "
+         "every age class, 5e8 transitions) and checks range, direction, reset value and the fast-recovery entry/exit "
+         "rules; 2e5..1.2e6 of those transitions are executed on a real connection (handle_nak, "
+         "handle_srtla_ack_specific in both modes with in-flight up to i32::MAX, handle_srtla_ack_global, "
+         "perform_window_recovery with both velocity classes, the resets, REG3 through process_uplink_packet) and "
+         "20k-240k event random timed histories are validated against the same module.",
+    note="RTT velocity is abstracted to the flag velocity > 2.0; the housekeeping rule 'classic skips recovery' is a "
+         "model action here and is bound to the real housekeeping pass in the shell-level checks. Trusted: TLC, the "
+         "state construction through test-internals fields.",
+)
+
 PENDING = {}
 
 def main():
